@@ -220,3 +220,68 @@ Proof. intros f p n H. unfold create_gate. rewrite H. destruct n; reflexivity. Q
 
 Theorem create_never_over_file : forall f p ow c, fs_get p f = Some (FFile c) -> create_gate f p ow = Err OSError.
 Proof. intros f p ow c H. unfold create_gate. rewrite H. reflexivity. Qed.
+
+(* ---------- C16: deleting a ragged array directory ---------- *)
+Lemma delete_dir_result : forall f base files, exists f',
+  delete_dir f base files true true = (Ok tt, f') \/ delete_dir f base files true true = (Err OSError, f').
+Proof.
+  intros f base files. unfold delete_dir. cbn [negb].
+  destruct (fs_children base _); eexists; [left|right]; reflexivity.
+Qed.
+
+Lemma get_in : forall q n (f : fs), fs_get q f = Some n -> exists m, In (q, m) f.
+Proof.
+  intros q n f. induction f as [|[r m] f IH]; intros H; [discriminate|]. cbn [fs_get] in H.
+  destruct (path_eqb q r) eqn:E; [apply path_eqb_eq in E; subst; eexists; left; reflexivity|].
+  destruct (IH H) as (m' & Hm). exists m'. right. exact Hm.
+Qed.
+
+Section RaggedDelete.
+  Variables (f : fs) (base : path) (topfiles afiles : list string) (q : path) (n : fnode).
+  (* q is foreign: present, not the array directory or its two sub-directories, not one of Darr's own files *)
+  Hypothesis Hq : fs_get q f = Some n.
+  Hypothesis Hbase : path_eqb base q = false.
+  Hypothesis Hv : path_eqb (base ++ ["values"%string]) q = false.
+  Hypothesis Hi : path_eqb (base ++ ["indices"%string]) q = false.
+  Hypothesis Htop : forall x, In x topfiles -> path_eqb (base ++ [x]) q = false.
+  Hypothesis Hva : forall x, In x afiles -> path_eqb ((base ++ ["values"%string]) ++ [x]) q = false.
+  Hypothesis Hia : forall x, In x afiles -> path_eqb ((base ++ ["indices"%string]) ++ [x]) q = false.
+
+  Theorem ragged_delete_keeps_foreign : forall opens writable,
+    fs_get q (snd (delete_ragged f base topfiles afiles opens writable)) = Some n.
+  Proof.
+    intros opens writable. unfold delete_ragged. destruct opens; [|exact Hq]. destruct writable; [|exact Hq]. cbn [negb].
+    set (f1 := fold_left _ topfiles f).
+    assert (H1: fs_get q f1 = Some n) by (apply fold_del_keeps; assumption).
+    pose proof (delete_keeps_foreign f1 (base ++ ["values"%string]) afiles true true q n H1 Hva Hv) as H2.
+    destruct (delete_dir f1 (base ++ ["values"%string]) afiles true true) as [[u|e] f2]; cbn [snd] in *; [|exact H2].
+    pose proof (delete_keeps_foreign f2 (base ++ ["indices"%string]) afiles true true q n H2 Hia Hi) as H3.
+    destruct (delete_dir f2 (base ++ ["indices"%string]) afiles true true) as [[u'|e] f3]; cbn [snd] in *; [|exact H3].
+    destruct (fs_children base f3); cbn [snd]; [|exact H3]. rewrite get_del_other; assumption.
+  Qed.
+
+  (* ... and, being inside the directory, it makes the call raise OSError *)
+  Theorem ragged_delete_foreign_raises : is_prefix base q = true ->
+    fst (delete_ragged f base topfiles afiles true true) = Err OSError.
+  Proof.
+    intros Hpre. unfold delete_ragged. cbn [negb].
+    set (f1 := fold_left _ topfiles f).
+    assert (H1: fs_get q f1 = Some n) by (apply fold_del_keeps; assumption).
+    pose proof (delete_keeps_foreign f1 (base ++ ["values"%string]) afiles true true q n H1 Hva Hv) as H2.
+    destruct (delete_dir_result f1 (base ++ ["values"%string]) afiles) as (f2 & [E2|E2]); rewrite E2 in *; cbn [fst snd] in *; [|reflexivity].
+    pose proof (delete_keeps_foreign f2 (base ++ ["indices"%string]) afiles true true q n H2 Hia Hi) as H3.
+    destruct (delete_dir_result f2 (base ++ ["indices"%string]) afiles) as (f3 & [E3|E3]); rewrite E3 in *; cbn [fst snd] in *; [|reflexivity].
+    destruct (fs_children base f3) as [|c cs] eqn:E; [|reflexivity]. exfalso.
+    destruct (get_in q n f3 H3) as (m & Hin). unfold fs_children in E.
+    assert (In q (map fst (filter (fun e => is_prefix base (fst e) && negb (path_eqb base (fst e))) f3))).
+    { apply in_map_iff. exists (q, m). split; [reflexivity|]. apply filter_In. split; [exact Hin|].
+      cbn [fst]. rewrite Hpre, Hbase. reflexivity. }
+    rewrite E in H. contradiction.
+  Qed.
+End RaggedDelete.
+
+Theorem ragged_delete_not_array : forall f base tf af writable,
+  delete_ragged f base tf af false writable = (Err TypeError, f).
+Proof. reflexivity. Qed.
+Theorem ragged_delete_readonly : forall f base tf af, delete_ragged f base tf af true false = (Err OSError, f).
+Proof. reflexivity. Qed.
